@@ -12,7 +12,7 @@ use easy_ml::matrices::views::{
     IndexRange, MatrixMut, MatrixPart, MatrixRange, MatrixRef, MatrixReverse, MatrixView, Reverse,
 };
 use easy_ml::matrices::Matrix;
-use easy_ml::tensors::indexing::TensorAccess;
+use easy_ml::tensors::indexing::{TensorAccess, TensorTranspose};
 use easy_ml::tensors::Tensor;
 
 const SENTINEL: u64 = 999_999_999;
@@ -23,6 +23,9 @@ enum Op {
     Range((usize, usize), (usize, usize), String),
     Reverse(bool, bool, String),
     Roundtrip(Option<(&'static str, &'static str)>),
+    /// the transposed view through the tensor side (`TensorAccess` / `TensorTranspose` in the
+    /// order column, row between the two wrappers)
+    Swap(String),
 }
 
 fn ids(n: usize) -> Vec<u64> {
@@ -62,6 +65,19 @@ fn apply<T: 'static>(m: Box<dyn MatrixMut<T>>, op: &Op) -> Result<Box<dyn Matrix
             }
             let t = TensorRefMatrix::with_names(m, [*n1, *n2]).ok().unwrap();
             Box::new(MatrixRefTensor::from(t))
+        }
+        Op::Swap(via) => {
+            if let Err(e) = TensorRefMatrix::from(&m) {
+                return Err(format!("err {}", show_shape(&e.shape())));
+            }
+            let t = TensorRefMatrix::from(m).ok().unwrap();
+            match via.as_str() {
+                "transpose" => Box::new(MatrixRefTensor::from(TensorTranspose::from(t, ["column", "row"]))),
+                "try_from" => Box::new(MatrixRefTensor::from(
+                    TensorAccess::try_from(t, ["column", "row"]).ok().expect("the names of the wrapper"),
+                )),
+                _ => Box::new(MatrixRefTensor::from(TensorAccess::from(t, ["column", "row"]))),
+            }
         }
     })
 }
@@ -478,7 +494,7 @@ fn apply_leaf(m: Matrix<u64>, op: &Op) -> Result<Cur, String> {
                 _ => return apply_mut(Box::new(m), op),
             }
         }
-        Op::Roundtrip(_) => return apply_mut(Box::new(m), op),
+        Op::Roundtrip(_) | Op::Swap(_) => return apply_mut(Box::new(m), op),
     })
 }
 
@@ -512,7 +528,7 @@ fn apply_mut(m: MDyn, op: &Op) -> Result<Cur, String> {
                 _ => Cur::Mut(apply(m, op)?),
             }
         }
-        Op::Roundtrip(_) => Cur::Mut(apply(m, op)?),
+        Op::Roundtrip(_) | Op::Swap(_) => Cur::Mut(apply(m, op)?),
     })
 }
 
@@ -550,6 +566,19 @@ fn apply_ref(m: RDyn, op: &Op) -> Result<Cur, String> {
                 return Err(format!("err {}", show_shape(&e.shape())));
             }
             Box::new(MatrixRefTensor::from(TensorRefMatrix::with_names(m, [*n1, *n2]).ok().unwrap()))
+        }
+        Op::Swap(via) => {
+            if let Err(e) = TensorRefMatrix::from(&m) {
+                return Err(format!("err {}", show_shape(&e.shape())));
+            }
+            let t = TensorRefMatrix::from(m).ok().unwrap();
+            match via.as_str() {
+                "transpose" => Box::new(MatrixRefTensor::from(TensorTranspose::from(t, ["column", "row"]))),
+                "try_from" => Box::new(MatrixRefTensor::from(
+                    TensorAccess::try_from(t, ["column", "row"]).ok().expect("the names of the wrapper"),
+                )),
+                _ => Box::new(MatrixRefTensor::from(TensorAccess::from(t, ["column", "row"]))),
+            }
         }
     }))
 }
@@ -886,8 +915,9 @@ impl Runner {
                     format!("ok {}", s)
                 }
             },
-            "mrange" | "mreverse" | "roundtrip" => {
+            "mrange" | "mreverse" | "roundtrip" | "mswap" => {
                 let op = match toks[0] {
+                    "mswap" => Op::Swap(via),
                     "mrange" => Op::Range(parse_range_pair(toks[1]), parse_range_pair(toks[2]), via),
                     "mreverse" => Op::Reverse(toks[1] == "1", toks[2] == "1", via),
                     _ => {
@@ -1604,6 +1634,42 @@ fn gen_part_views(g: &mut Gen) {
     }
 }
 
+/// compositions containing the transposed view through the tensor side (`mswap`)
+fn gen_swaps(g: &mut Gen) {
+    let rounds = if g.thorough { 8000 } else { 320 };
+    for round in 0..rounds {
+        let large = round % 8 == 7;
+        let (rows, cols) = if large { (g.rng.range(6, 10), g.rng.range(6, 10)) } else { (g.rng.range(1, 4), g.rng.range(1, 5)) };
+        let line = leaf_line(g, rows, cols);
+        g.op(line);
+        let (mut vr, mut vc) = (rows, cols);
+        let depth = g.rng.range(1, 4);
+        let mut kinds: Vec<&'static str> = vec![];
+        let mut swaps = 0;
+        for step in 0..depth {
+            if g.rng.chance(2, 5) || (step + 1 == depth && swaps == 0) {
+                let via = *g.rng.pick(&["access", "try_from", "transpose"]);
+                g.op(format!("mswap via={}", via));
+                g.count(&format!("mswap.via.{}", via));
+                if vr == 0 || vc == 0 {
+                    g.count("mswap.refused_on_empty_view");
+                } else {
+                    std::mem::swap(&mut vr, &mut vc);
+                }
+                swaps += 1;
+                kinds.push("swap");
+            } else {
+                kinds.extend(gen_stack(g, &mut vr, &mut vc, 1));
+            }
+        }
+        g.count(&format!("mswap.{}", kinds.join("_of_")));
+        if large {
+            g.count("mswap.large");
+        }
+        gen_queries(g, vr, vc, "mswap", !large && depth == 1);
+    }
+}
+
 fn sublists(n: usize) -> Vec<Vec<usize>> {
     // all ascending lists over 0..=n (every subset, sorted)
     let mut out = vec![];
@@ -2044,5 +2110,6 @@ pub fn gen(g: &mut Gen) {
     gen_nested(g);
     gen_partitions(g);
     gen_part_views(g);
+    gen_swaps(g);
     let _ = bset(1);
 }
